@@ -12,8 +12,34 @@ import Mux.Spec.Defs
 namespace Mux.C16
 open Mux
 
-/-- The response the harness's `RecoverFunc` produces: status 500 on the headers set so far. -/
-def recoveredRec (hs : Hdr) : Rec := ({ hdr := hs } : Rec).writeHeader 500
+/-- The response the recovery function produces on the writer it is handed (the plain writer, or the `headResponse`
+wrapper when the panic happened below it), starting from the headers set so far. -/
+def recoveredRec (c : Call) : Rec := recRec c.recActs c.headWrap c.respHeaders
+
+/-- The harness's `RecoverFunc` (records the value, writes status 500): status 500 on the headers set so far, with or
+without the HEAD wrapper. -/
+theorem C16_default_rec (hw : Bool) (hs : Hdr) :
+    recRec defaultRecActs hw hs = ({ hdr := hs } : Rec).writeHeader 500 := by
+  cases hw <;> rfl
+
+/-- The bundled options (`WithStatusRecovery(status)` and the Write/Log/SLog variants) answer through
+`http.Error(w, http.StatusText(status), status)`: the configured status, `Content-Type: text/plain; charset=utf-8`,
+`X-Content-Type-Options: nosniff`, any earlier Content-Length removed, and the text plus a newline as the body. -/
+theorem C16_bundled_rec (code n : Nat) (hs : Hdr) :
+    let h' := ((hs.del hContentLength).set hContentType (bytesOfString "text/plain; charset=utf-8")).set
+                (bytesOfString "X-Content-Type-Options") (bytesOfString "nosniff")
+    recRec (httpErrorActs code n) false hs = { hdr := h', code := some code, snap := some h', body := n + 1 } := by
+  simp [recRec, httpErrorActs, runGet, Rec.writeHeader, Rec.write]
+
+/-- … and when the panic happened below the `headResponse` wrapper of a HEAD request (the deferred closure sees the
+reassigned `w`): the same status and headers at the moment the header is written, no body bytes, and Content-Length
+set on the live header map afterwards. -/
+theorem C16_bundled_rec_head (code n : Nat) (hs : Hdr) :
+    let h' := ((hs.del hContentLength).set hContentType (bytesOfString "text/plain; charset=utf-8")).set
+                (bytesOfString "X-Content-Type-Options") (bytesOfString "nosniff")
+    recRec (httpErrorActs code n) true hs =
+      { hdr := h'.set hContentLength (natToBytes (n + 1)), code := some code, snap := some h', body := 0 } := by
+  simp [recRec, httpErrorActs, runHead, Rec.writeHeader]
 
 /-- With recovery configured nothing escapes `Router.ServeHTTP` — neither a user panic nor a
 runtime fault — and a panic with value `v` raised by the call reaches the recovery function as
@@ -22,7 +48,7 @@ theorem C16_contained (r : Router) (hr : r.recover = true) (env : Env) (pc : Pan
     (scripts : Scripts) (req : Req) (ps : Params) :
     (∀ v, (r.serveHTTP env pc scripts req ps).2 ≠ .panicked v) ∧
     (∀ c v, r.serveContext env req ps = .call c → runCall pc scripts c = .error v →
-      r.serveHTTP env pc scripts req ps = (some c, .recovered v (recoveredRec c.respHeaders))) := by
+      r.serveHTTP env pc scripts req ps = (some c, .recovered v (recoveredRec c))) := by
   constructor
   · intro v
     apply finish_not_panicked
@@ -36,7 +62,7 @@ theorem C16_contained (r : Router) (hr : r.recover = true) (env : Env) (pc : Pan
 theorem C16_contained_user (r : Router) (hr : r.recover = true) (env : Env) (pc : PanicCfg)
     (scripts : Scripts) (req : Req) (ps : Params) (c : Call) (v : Nat)
     (hc : r.serveContext env req ps = .call c) (hv : runCall pc scripts c = .error (.user v)) :
-    (r.serveHTTP env pc scripts req ps).2 = .recovered (.user v) (recoveredRec c.respHeaders) := by
+    (r.serveHTTP env pc scripts req ps).2 = .recovered (.user v) (recoveredRec c) := by
   rw [(C16_contained r hr env pc scripts req ps).2 c _ hc hv]
 
 /-- Without the option the same value reaches the caller of `ServeHTTP`. -/
@@ -104,8 +130,8 @@ theorem C16_group_notFound (env : Env) (hostsTab : Nat → Option Hosts) (pc : P
     (scripts : Scripts) (rt : RTab) (g : Group) (req : Req) (p : Bytes)
     (hrej : rejectPath env hostsTab req g.routers req.path = some p) :
     let c : Call := { handler := g.notFound, node := none, ok := false, params := [], routerName := [],
-                      respHeaders := [], headWrap := false, path := p, recover := g.recover }
-    g.serveHTTP env hostsTab pc scripts rt req = (some c, withRecover g.recover [] (runCall pc scripts c)) := by
+                      respHeaders := [], headWrap := false, path := p, recover := g.recover, recActs := g.recActs }
+    g.serveHTTP env hostsTab pc scripts rt req = (some c, withRecover g.recover [] (runCall pc scripts c) g.recActs false) := by
   intro c
   have := go_append env hostsTab rt g req g.routers [] req.path p hrej
   rw [List.append_nil] at this
@@ -145,7 +171,7 @@ theorem C16_group_contained (env : Env) (hostsTab : Nat → Option Hosts) (pc : 
     (hrs : ∀ e ∈ g.routers, ∀ r, rt.get? e.1 = some r → r.recover = true) :
     (∀ v, (g.serveHTTP env hostsTab pc scripts rt req).2 ≠ .panicked (.user v)) ∧
     (∀ c v, g.serve env hostsTab rt req = .call c → runCall pc scripts c = .error v →
-      g.serveHTTP env hostsTab pc scripts rt req = (some c, .recovered v (recoveredRec c.respHeaders))) := by
+      g.serveHTTP env hostsTab pc scripts rt req = (some c, .recovered v (recoveredRec c))) := by
   have hcall : ∀ c, g.serve env hostsTab rt req = .call c → c.recover = true := by
     intro c hc
     rcases C16_group env hostsTab rt g req c hc with ⟨_, _, h, _⟩ | ⟨pre, rid, m, post, p0, p, ps, r, h1, _, _, h4, _, h6⟩
@@ -159,7 +185,7 @@ theorem C16_group_contained (env : Env) (hostsTab : Nat → Option Hosts) (pc : 
     | fault n rc => cases rc <;> simp [ServeRes.finish, withRecover]
     | call c =>
       simp only [ServeRes.finish, hcall c hs]
-      exact withRecover_true_ne_panicked _ _ _
+      exact withRecover_true_ne_panicked _ _ _ _ _
   · intro c v hc hv
     simp only [Group.serveHTTP, hc, ServeRes.finish, hv, hcall c hc]
     rfl
